@@ -237,7 +237,10 @@ class PropertyCheck:
         for o, r in zip(obls, results):
             if o.kind == "vacuity":
                 groups.setdefault(o.name, []).append(r["result"])
+        partial = {ex.qualname for kind, c, ex in execs if ex.unsupported}     # execution aborted: path groups incomplete
         for g, rs in groups.items():
+            if g.split("/")[0] in partial:
+                continue
             if rs and all(x == "unsat" for x in rs):
                 self.errors.append(f"vacuous proof: every path of {g} is infeasible under the stated assumptions (contradictory contract or model)")
         self.vacuity = {"groups": len(groups), "paths": sum(len(v) for v in groups.values()),
@@ -311,6 +314,19 @@ class PropertyCheck:
                                    failed_clauses=rr["failed"], observed=rr.get("observed"), detail=rr.get("detail"))
                         break
                 rec["inputs_tried"] = len(tried)
+        # the same named obligation can be refuted on several paths: one replay file and one VIOLATION line per
+        # obligation, keeping a reproduced record over an unreproduced one
+        prev = getattr(self, "_replayed", {}).get(path)
+        if prev is not None and (prev["reproduced"] or not rec["reproduced"]):
+            prev["paths_refuted"] = prev.get("paths_refuted", 1) + 1
+            with open(os.path.join(OUT, path), "w") as f:
+                json.dump(prev, f, indent=1, default=str)
+            return
+        self.__dict__.setdefault("_replayed", {})[path] = rec
+        if prev is not None:
+            rec["paths_refuted"] = prev.get("paths_refuted", 1) + 1
+            self.violations = [v for v in self.violations if v["replay"] != path]
+            self.messages = [m for m in self.messages if f"replay={path}" not in m.split(" ")]
         with open(os.path.join(OUT, path), "w") as f:
             json.dump(rec, f, indent=1, default=str)
         tail = "" if rec["reproduced"] else " no-failing-input-found"
@@ -362,6 +378,12 @@ class PropertyCheck:
         self.cross = {"functions": 0, "calls": 0, "precondition_skips": 0, "samples": []}
         refuted_fns = {v["obligation"].split("/")[0] for v in self.violations}
         undecided_fns = {u["obligation"].split("/")[0] for u in self.undecided}
+        # modular verification: a caller is proved against its callees' CONTRACTS.  If a callee's own contract is
+        # refuted / undecided, a run-time failure of the caller is attributable to that callee, not to the engine.
+        tainted = self.callers_of(refuted_fns | undecided_fns, fns)
+        direct_refuted = set(refuted_fns)
+        refuted_fns |= {q for q, root in tainted.items() if root in direct_refuted}
+        undecided_fns |= {q for q in tainted if q not in refuted_fns}
         standin_hits = {}
         jobs, owners = [], []
         for c in fns:
@@ -412,6 +434,42 @@ class PropertyCheck:
             if c.witness is not None and c.qualname not in witnessed and c.qualname not in refuted_fns \
                     and all(k in ("int", "bool", "bytes", "str", "stream", "obj") for k in c.types.values()):
                 self.errors.append(f"vacuity: no concrete call of {c.qualname} satisfied its precondition")
+
+    def callers_of(self, bad, fns):
+        """{caller qualname: a bad callee} for every function under contract that (transitively) calls a function in
+        `bad` (static scan of the real source for the callee's simple name)."""
+        import ast as _ast
+        names = {}
+        for c in fns:
+            try:
+                mi, q, node = front.get_function(c.qualname)
+            except Exception:
+                continue
+            called = set()
+            for n in _ast.walk(node):
+                if isinstance(n, _ast.Call):
+                    f = n.func
+                    if isinstance(f, _ast.Name):
+                        called.add(f.id)
+                    elif isinstance(f, _ast.Attribute):
+                        called.add(f.attr)
+            names[c.qualname] = called
+        out = {}
+        frontier = set(bad)
+        seen = set(bad)
+        while frontier:
+            nxt = set()
+            for q, called in names.items():
+                if q in seen:
+                    continue
+                for b in frontier:
+                    if b.split(".")[-1].replace("@instance", "") in called:
+                        out[q] = out.get(b, b)
+                        nxt.add(q)
+                        break
+            seen |= nxt
+            frontier = nxt
+        return out
 
     def run_bounded(self):
         self.bounded = []
@@ -474,7 +532,14 @@ class PropertyCheck:
         if level == "proof" and not all_ok:
             level = "other"
         assumptions = sorted(self.eng.assumptions_used)
-        assumption_text = [f"{a}: {ASSUMPTIONS.get(a, getattr(self.pmod, 'ASSUMPTIONS', {}).get(a, ''))}" for a in assumptions]
+        texts = dict(ASSUMPTIONS)
+        for plug in self.eng.spec.plugins:
+            pm = sys.modules.get(type(plug).__module__)
+            for nm in dir(pm):
+                if nm.endswith("_ASSUMPTIONS") and isinstance(getattr(pm, nm), dict):
+                    texts.update(getattr(pm, nm))
+        texts.update(getattr(self.pmod, "ASSUMPTIONS", {}))
+        assumption_text = [f"{a}: {texts.get(a, '')}" for a in assumptions]
         assumption_text += list(getattr(self.pmod, "ASSUMED", []))
         cov = {
             "obligations": len(self.obls),
